@@ -64,6 +64,7 @@ Section Frame.
     | AReplace src dst => S src && S dst
     | ARemove p => S p
     | ARmdir p => S p
+    | AOpenRW p => S p
     | _ => true
     end.
 
@@ -78,6 +79,13 @@ Section Frame.
   Proof.
     intros Hfs Hfd (H1 & H2 & H3). unfold FInv. rewrite Hfs. repeat split; auto.
     intros q Hq. destruct Hfd as [E|E]; rewrite E in Hq; [auto | discriminate].
+  Qed.
+
+  Lemma FInv_fd s s' p :
+    s_fs s' = s_fs s -> s_fd s' = Some p -> S p = true -> FInv s -> FInv s'.
+  Proof.
+    intros Hfs Hfd Hp (H1 & H2 & H3). unfold FInv. rewrite Hfs, Hfd. repeat split; auto.
+    intros q Hq. inversion Hq; subst. exact Hp.
   Qed.
 
   Lemma FInv_insert s s' p n :
@@ -118,7 +126,7 @@ Section Frame.
 
   Lemma sem_FInv a s : safeS a = true -> FInv s -> FInv (fst (sem a s)).
   Proof.
-    intros Hs HI. destruct a as [p|p|d|p q|p|i raises|off|d| | |t|t|p|src dst|src dst|p|p|e|t|t rel n|t|t| |p q|p q|t];
+    intros Hs HI. destruct a as [p|p|d|p q|p|i raises|off|d| | |t|t|p|src dst|src dst|p|p|e|t|t rel n|t|t| |p q|p q|t|p|n];
       simpl in *; try (eapply FInv_same_fs; [| |exact HI]; simpl; auto; fail).
     - (* AMkdtemp *)
       destruct (lookup (s_fs s) d) eqn:E; [eapply FInv_same_fs; [| |exact HI]; simpl; auto|].
@@ -178,5 +186,19 @@ Section Frame.
       destruct (t_off t0 + t_len t0 <=? length d); exact HI.
     - destruct (nth_error (s_tens s) t); simpl; [|exact HI].
       destruct (read_tensor (s_fs s) t0); exact HI.
+    - (* AOpenRW *)
+      rewrite (resolve_S s p HI Hs).
+      destruct (lookup (s_fs s) p) as [[f m| |t]|] eqn:E; simpl;
+        try (eapply FInv_same_fs; [| |exact HI]; simpl; auto; fail).
+      eapply FInv_fd with (s := s) (p := p); [reflexivity|reflexivity|exact Hs|exact HI].
+    - (* ATruncate *)
+      destruct (s_fd s) as [q|] eqn:Efd; [|eapply FInv_same_fs; [| |exact HI]; simpl; auto].
+      destruct (lookup (s_fs s) q) as [[f m| |t]|] eqn:El; simpl;
+        try (eapply FInv_same_fs; [| |exact HI]; simpl; auto; fail).
+      eapply FInv_insert with (p := q) (n := File (firstn n (f ++ repeat 0%N (n - length f))) m); [| | | |exact HI].
+      + destruct HI as (_ & H2 & _). auto.
+      + discriminate.
+      + reflexivity.
+      + simpl. auto.
   Qed.
 End Frame.
